@@ -94,6 +94,53 @@ def halt_programs(check, wp, family, seed, layouts, vers=None, num=40):
     return res
 
 
+def _needed_cats(fill):
+    out = set()
+    for x in fill.values():
+        if not isinstance(x, dict):
+            continue
+        f = x.get("f")
+        if f in ("ch", "ls"):
+            out.add(x["cat"])
+        elif f == "nd":
+            out |= _needed_cats(x["fill"])
+        elif f == "sq":
+            for it in x["items"]:
+                out |= _needed_cats({"_": it})
+    return out
+
+
+def chain_set(table, fams=("both",)):
+    """the access-chain fragment of Syntax.tla: every atom-level expression variant (variables, fetches, calls, new,
+    strings ...) of the given families, closed under 'every category a variant mentions is inhabited'"""
+    byid = {v["id"]: v for v in table["variants"]}
+    ids = {v["id"] for v in table["variants"]
+           if v["fam"] in fams and ((v["lvl"] == 30 and "expr" in v["cats"]) or set(v["cats"]) & {"deref", "var", "callee", "classref", "propchain", "litderef"})}
+    ids |= {"StmtExpression", "Name", "NamePart", "Argument", "ScalarLnumber"}
+    changed = True
+    while changed:
+        changed = False
+        cats = set()
+        for i in ids:
+            cats |= set(byid[i]["cats"])
+        for i in sorted(ids):
+            if not _needed_cats(byid[i]["fill"]) <= cats:
+                ids.discard(i)
+                changed = True
+    return sorted(ids)
+
+
+def chain_programs(check, wp, family, seed, layouts, vers, maxchoices, fams=("both",)):
+    """all expression statements built from the access-chain fragment with a derivation of <= maxchoices choices (TLC, exhaustive)"""
+    table, _ = syntax.generate(check, family, num=1, seed=seed, depth=1)
+    table, behs = syntax.generate(check, family, rootcat="stmt", rootmax=1, depth=4, allowed=chain_set(table, fams),
+                                  exhaustive=True, maxchoices=maxchoices, timeout=2400)
+    res = run_programs(check, wp, family, behs, table, seed, layouts, vers)
+    for m, t, r in res:
+        m["i"] += 2000000
+    return res
+
+
 NOT_SCALABLE = {"heredoc/empty", "nowdoc/empty", "stmt+halt"}     # D6 (known finding) / must be last
 
 
